@@ -155,9 +155,12 @@ theorem decodeSized_ok (t : Ty) (path : Path) (cid : Nat) (m : Nat) (v : Val) (b
       simp only [emitM, emit]
       -- fuel: input length + 2 exceeds the number of sessions, each of which is non-empty
       have hcount : vs.length ≤ b.length := specRepeat_count t path vs 0 b e hrep
+      have hfuel : sizedFuel cid (pre ++ [c]) = b.length + 2 := by
+        simp only [sizedFuel, findSC_last cid pre c hc hpre, hm, Option.getD_some]; omega
+      rw [hfuel]
       have := sizedLoop_ok t path cid m vs 0 b e [] pre c hrep hc hm hpre rest pos
-        (out ++ [(pos, .marshal ⟨path, .listOf t.name, none, "", 0⟩)]) ((b ++ rest).length + 2)
-        (by simp only [List.length_append]; omega) hlen hroom hfresh
+        (out ++ [(pos, .marshal ⟨path, .listOf t.name, none, "", 0⟩)]) (b.length + 2)
+        (by omega) hlen hroom hfresh
       simp only [List.nil_append] at this
       rw [this]
       simp [stamp_cons]
